@@ -147,16 +147,16 @@ impl World {
             Ok(Some(g)) => g,
             _ => return "norecord".into(),
         };
-        let (mls_epoch, token, members, mls_data, queued) = match m.load_mls_group(gid) {
+        let (mls_epoch, token, members, mls_data, queued, pendc) = match m.load_mls_group(gid) {
             Ok(Some(g)) => {
                 let auth = g.epoch_authenticator().as_slice().to_vec();
                 let n = self.tokens.len();
                 let t = *self.tokens.entry(auth).or_insert(n);
                 let mem: BTreeSet<String> = m.get_members(gid).map(|s| s.iter().map(|p| self.who(p)).collect()).unwrap_or_default();
                 let data = mdk_core::extension::NostrGroupDataExtension::from_group(&g).ok();
-                (g.epoch().as_u64() as i64, t as i64, mem, data, g.pending_proposals().count())
+                (g.epoch().as_u64() as i64, t as i64, mem, data, g.pending_proposals().count(), g.pending_commit().is_some() as u8)
             }
-            _ => (-1, -1, BTreeSet::new(), None, 0),
+            _ => (-1, -1, BTreeSet::new(), None, 0, 0),
         };
         let admins: BTreeSet<String> = group.admin_pubkeys.iter().map(|p| self.who(p)).collect();
         let relays: BTreeSet<u64> = m.get_relays(gid).map(|s| s.iter().map(relay_num).collect()).unwrap_or_default();
@@ -229,7 +229,7 @@ impl World {
             _ => "!sync",
         };
         format!(
-            "E{} T{} M[{}] A[{}] N{} D{} I{} R[{}] S{} PA[{}] PR[{}] L{} X[{}] K[{}] Z{}{} Q{}",
+            "E{} T{} M[{}] A[{}] N{} D{} I{} R[{}] S{} PA[{}] PR[{}] L{} X[{}] K[{}] Z{}{} Q{} C{}",
             group.epoch,
             token,
             members.into_iter().collect::<Vec<_>>().join(","),
@@ -246,7 +246,8 @@ impl World {
             recs.join(","),
             snaps,
             rec_sync,
-            queued
+            queued,
+            pendc
         )
     }
 
@@ -615,9 +616,70 @@ impl World {
                     let own = mg.own_leaf()?.clone();
                     let signer = SignatureKeyPair::read(storage, own.signature_key().as_slice(), mg.ciphersuite().signature_algorithm())?;
                     let sec = mg.export_secret(m.provider.crypto(), "nostr", b"nostr", 32).ok()?;
-                    let (msg, _) = mg.propose_self_update(&m.provider, &signer, LeafNodeParameters::default()).ok()?;
+                    let (msg, pref) = mg.propose_self_update(&m.provider, &signer, LeafNodeParameters::default()).ok()?;
                     let bytes = msg.tls_serialize_detached().ok()?;
-                    let _ = mg.clear_pending_proposals(storage);
+                    let _ = mg.remove_pending_proposal(storage, &pref);   // only this proposal: whatever else is queued stays
+                    let keys = Keys::new(nostr::SecretKey::from_slice(&sec).ok()?);
+                    let content = nostr::nips::nip44::encrypt(keys.secret_key(), &keys.public_key, &bytes, nostr::nips::nip44::Version::default()).ok()?;
+                    EventBuilder::new(Kind::MlsGroupMessage, content)
+                        .tag(Tag::custom(TagKind::h(), [hex::encode(rec.nostr_group_id)]))
+                        .custom_created_at(Timestamp::from(ts))
+                        .sign_with_keys(&Keys::generate())
+                        .ok()
+                })());
+                self.clients[i].mdk = Some(mdk);
+                match r {
+                    Some(ev) => self.push_event(ev),
+                    None => "err:Craft".into(),
+                }
+            }
+            "advprop" => {
+                // advprop <i> <remove j | add kp | gce - | psk -> <tsoff>: member i builds a stand-alone MLS PROPOSAL with OpenMLS
+                // directly (Remove of member j — possibly itself —, Add of key package kp, GroupContextExtensions re-stating
+                // the current extensions, external PreSharedKey), takes exactly that proposal out of its own store again, and
+                // publishes it like mdk would
+                use openmls::prelude::{LeafNodeIndex, MlsGroup};
+                use openmls::schedule::PreSharedKeyId;
+                use openmls_basic_credential::SignatureKeyPair;
+                use tls_codec::Serialize as _;
+                let i = u(t[1]) as usize;
+                let what = t[2];
+                let gid = match self.clients[i].gid.clone() { Some(g) => g, None => return "err:NoGroup".into() };
+                let ts = self.t0 + u(t[4]);
+                let target = if what == "remove" { Some(self.clients[u(t[3]) as usize].keys.public_key()) } else { None };
+                let kp_ev = if what == "add" { Some(self.kps[u(t[3]) as usize].1.clone()) } else { None };
+                let mdk = self.clients[i].mdk.take().unwrap();
+                let r: Option<Event> = with_mdk!(&mdk, |m| (|| {
+                    let storage = m.provider.storage();
+                    let rec = m.get_group(&gid).ok()??;
+                    let mut mg = MlsGroup::load(storage, gid.inner()).ok()??;
+                    let own = mg.own_leaf()?.clone();
+                    let signer = SignatureKeyPair::read(storage, own.signature_key().as_slice(), mg.ciphersuite().signature_algorithm())?;
+                    let sec = mg.export_secret(m.provider.crypto(), "nostr", b"nostr", 32).ok()?;
+                    let (msg, pref) = match what {
+                        "remove" => {
+                            let tb = target?.to_bytes().to_vec();
+                            let idx: LeafNodeIndex = mg.members().find(|mem| {
+                                openmls::prelude::BasicCredential::try_from(mem.credential.clone()).ok().map(|c| c.identity().to_vec()) == Some(tb.clone())
+                            })?.index;
+                            mg.propose_remove_member(&m.provider, &signer, idx).ok()?
+                        }
+                        "add" => {
+                            let kp = m.parse_key_package(kp_ev.as_ref()?).ok()?;
+                            mg.propose_add_member(&m.provider, &signer, &kp).ok()?
+                        }
+                        "gce" => {
+                            let ext = mg.extensions().clone();
+                            mg.propose_group_context_extensions(&m.provider, ext, &signer).ok()?
+                        }
+                        "psk" => {
+                            let id = PreSharedKeyId::external(b"verif-psk".to_vec(), vec![7u8; 32]);
+                            mg.propose_external_psk(&m.provider, &signer, id).ok()?
+                        }
+                        _ => return None,
+                    };
+                    let bytes = msg.tls_serialize_detached().ok()?;
+                    let _ = mg.remove_pending_proposal(storage, &pref);
                     let keys = Keys::new(nostr::SecretKey::from_slice(&sec).ok()?);
                     let content = nostr::nips::nip44::encrypt(keys.secret_key(), &keys.public_key, &bytes, nostr::nips::nip44::Version::default()).ok()?;
                     EventBuilder::new(Kind::MlsGroupMessage, content)
@@ -682,7 +744,7 @@ pub fn main(_args: &[String]) -> i32 {
         };
         // fingerprint of the acting client (second token is the client index for client-directed ops)
         let fp = match t[0] {
-            "client" | "kp" | "create" | "welcome" | "accept" | "decline" | "send" | "selfupdate" | "add" | "remove" | "leave" | "data" | "merge" | "clear" | "deliver" | "restart" | "fp" | "advremove" | "advgce" | "advupdate" => {
+            "client" | "kp" | "create" | "welcome" | "accept" | "decline" | "send" | "selfupdate" | "add" | "remove" | "leave" | "data" | "merge" | "clear" | "deliver" | "restart" | "fp" | "advremove" | "advgce" | "advupdate" | "advprop" => {
                 let ci = u(t[1]) as usize;
                 if ci < world.clients.len() && world.clients[ci].mdk.is_some() {
                     catch_unwind(AssertUnwindSafe(|| world.fingerprint(ci))).unwrap_or_else(|_| "fp-panic".into())
